@@ -185,36 +185,22 @@ def rule_range(ctx):
     if len(calls) != 1:
         raise AnalysisError(f'{f.key}: header_branch_and_root call not found')
     c = calls[0]
-    guards = [s for s in f.node.body if isinstance(s, ast.If) and any(isinstance(x, ast.Raise) for x in s.body)]
-    ok, why = False, 'no raising range guard'
-    if guards:
-        g = guards[0]
-        t = g.test
-        neg = isinstance(t, ast.UnaryOp) and isinstance(t.op, ast.Not)
-        parts = q.split_compare(t.operand if neg else t)
-        lows, highs = False, False
-        if neg:
-            for pc in parts:
-                cn = q.comparison_normal(ctx, f, pc)
-                if cn is None:
-                    continue
-                d, op = cn
-                if op == '>=' and q.lin_eq(d, {cp: 1, h: -1, '': 0}):
-                    lows = True
-                # max height: local bound to self.db.state.height
-                if op == '>=':
-                    atoms = {k: v for k, v in d.items() if v != 0}
-                    others = [k for k in atoms if k != cp]
-                    if atoms.get(cp) == -1 and len(others) == 1 and atoms[others[0]] == 1:
-                        mh = others[0]
-                        if mh == 'self.db.state.height':
-                            highs = True
-                        else:
-                            defs_ = q.assigns(ctx, f, mh)
-                            if len(defs_) == 1 and ctx.res.canon(defs_[0].value, f) == 'self.db.state.height':
-                                highs = True
-        ok = lows and highs and cfg.dominates(cfg.node(g), cfg.node(q.stmt(c)))
-        why = f'guard `{norm(t)}`: height<=cp ok={lows}, cp<=db height ok={highs}'
+    # per path to the cache call, tests split into their atoms (so `not a <= b <= c`, `a > b or b > c`, nested ifs and guard
+    # clauses read the same): the path decided height <= cp_height and cp_height <= self.db.state.height, both true
+    from .. import paths as P
+    ok, why, seen = True, '', 0
+    for pth in P.paths(f.node.body):
+        if not pth.passes(q.stmt(c)):
+            continue
+        seen += 1
+        lows = P.decided(ctx, f, pth, f'{h} <= {cp}')
+        highs = P.decided(ctx, f, pth, f'{cp} <= self.db.state.height')
+        if lows is not True or highs is not True:
+            ok = False
+            why = f'a path reaches the proof under {pth.cond_texts()}: height<=cp ok={lows}, cp<=db height ok={highs}'
+    ok = ok and seen >= 1
+    if not seen:
+        why = 'no path to the cache call found'
     ctx.check(ok, 'C11.RANGE', ctx.key(f, None, 'range guard'),
               'header proofs are computed only under height <= cp_height <= db height',
               'the header-proof range guard is not `height <= cp_height <= db height` dominating the cache call (' + why +
